@@ -100,7 +100,7 @@ type PScn struct {
 	ZooGo   string             `json:"zoo_go,omitempty"`
 	Peek    bool               `json:"peek,omitempty"`    // every GenerateType call first asks the Context for the doc of every type of every package the processed package imports (as a generator does for the types a type refers to) and renders nothing from it
 	ZooFns  bool               `json:"zoo_fns,omitempty"` // zoo/p declares functions A and B with error results (A returns B's among others) and the first package of the main module a function Q whose result comes from zoo/p's B and then from its A: what a generator renders from ResultsOf about zoo/p's A is a fact about zoo/p, whoever asked about Q before
-	Nested  bool               `json:"nested,omitempty"` // a second module <mod>/sub nested in the tree (own go.mod, replaced by ./sub), whose package <mod>/sub/p the first package imports: not a package of this module, whatever its path looks like
+	Nested  bool               `json:"nested,omitempty"`  // a second module <mod>/sub nested in the tree (own go.mod, replaced by ./sub), whose package <mod>/sub/p the first package imports: not a package of this module, whatever its path looks like
 }
 
 // PItem: one rendered snippet of a custom body
